@@ -272,6 +272,15 @@ def run(ctx):
             ok = (matched and not pushes) or (not matched and len(pushes) == 1 and ov is not None and pushes[0].args == (ov,))
             ok2 = len(sc) == 1 and ov is not None and ex.mentions(sc[0].args[0], ov)
             ctx.check(ok and ok2, 'R4', '%s path: searched x%d matched=%s pushed x%d' % (name, len(finds), matched, len(pushes)), where(f), 'set_comm x%d' % len(sc), key='R4|%s|push xor match' % name)
+            # what the data transfer needs is stored on every path: the side's actor and its buffer with the capacity of that same buffer (copy_data bounds the
+            # copy by these two sizes)
+            if ov is not None:
+                side = 'src' if name == 'isend' else 'dst'
+                who = [e for e in evs if e.kind == 'assign' and e.lhs[0] == 'field' and e.lhs[1] in (ov, ('un', '*', ov)) and e.lhs[2].endswith('::%s_actor_' % side) and 'get_issuer' in repr(e.rhs)]
+                buf = [e for e in evs if e.kind == 'call' and e.q.endswith('::set_%s_buff' % side) and len(e.args) == 2]
+                okb = len(buf) == 1 and ('get_%s_buff' % side) in repr(buf[0].args[0]) and ('get_%s_buff_size' % side) in repr(buf[0].args[1])
+                ctx.check(len(who) == 1 and okb, 'R4', '%s path (matched=%s): %s_actor_ and set_%s_buff(buffer, size of that buffer)' % (name, matched, side, side), where(f),
+                          '%s_actor_ x%d, set_%s_buff%s' % (side, len(who), side, [ex.pretty(a) for a in buf[0].args] if buf else ' missing'), key='R4|%s|actor and buffer set' % name)
 
     # ---- R5 copy once, bounded ----------------------------------------------------------------------------------------------------
     ctx.rule('R5', 'copy_data: guarded by !copied_, sets copied_ on every path that may copy, copies min(src size, dst capacity) bytes', 3)
